@@ -210,6 +210,7 @@ impl Field {
     pub fn is_numeric_field(&self) -> bool {
         matches!(self, Field::Size | Field::FormattedSize
             | Field::Uid | Field::Gid
+            | Field::Device | Field::Inode | Field::Blocks | Field::Hardlinks
             | Field::Width | Field::Height
             | Field::LineCount
             | Field::Duration
